@@ -104,12 +104,18 @@ func (t *trTranslator) findFunc(p *trPkg, name string) *ast.FuncDecl {
 
 // directEffect: the body needs the Outcome monad by itself
 func (t *trTranslator) directEffect(f *trFunc) bool {
+	if trDispatchOf[f] != nil {
+		return false // dynamic dispatch over a closed sum (trans_units_tablerender.go)
+	}
 	return t.directEffectIn(f.pkg.info, f.decl.Body)
 }
 
 func (t *trTranslator) directEffectIn(info *types.Info, root ast.Node) bool {
 	eff := false
 	ast.Inspect(root, func(n ast.Node) bool {
+		if trTableEffect(info, n) {
+			eff = true // make([]T, n), a csv.Writer (trans_units_tablerender.go)
+		}
 		if trPerfEffect(info, n) {
 			eff = true // dereference of a nilable pointer, store into a nilable map (trans_units_perf.go)
 		}
@@ -179,6 +185,9 @@ func (t *trTranslator) directEffectIn(info *types.Info, root ast.Node) bool {
 }
 
 func (t *trTranslator) callees(f *trFunc) []*trFunc {
+	if d := trDispatchOf[f]; d != nil {
+		return d.impls
+	}
 	res := t.calleesIn(f.pkg.info, f.decl.Body)
 	if !trCreateUnitSet[f.unit] {
 		// the functions of the Create units are translated for those units only (trans_units_create.go)
@@ -212,7 +221,7 @@ func (t *trTranslator) calleesIn(info *types.Info, root ast.Node) []*trFunc {
 			}
 		}
 		if fo != nil {
-			if g := t.funcs[fo.Origin()]; g != nil {
+			if g := t.funcs[fo.Origin()]; g != nil && !t.builderCallFromOutside(info, fo) {
 				res = append(res, g)
 			}
 		}
@@ -227,6 +236,9 @@ func (t *trTranslator) calleesIn(info *types.Info, root ast.Node) []*trFunc {
 
 // mutParams: parameters (receiver = index 0 of a method) of pointer or map type that the body assigns through
 func (t *trTranslator) mutParams(f *trFunc) {
+	if trDispatchOf[f] != nil {
+		return
+	}
 	sig := f.obj.Type().(*types.Signature)
 	var params []*types.Var
 	if sig.Recv() != nil {
@@ -279,6 +291,10 @@ func (t *trTranslator) translateFunc(f *trFunc) {
 			panic(r)
 		}
 	}()
+	if d := trDispatchOf[f]; d != nil {
+		t.translateDispatch(f, d)
+		return
+	}
 	if f.decl.Body == nil {
 		trFail(f.decl.Pos(), "function without a body")
 	}
@@ -291,8 +307,9 @@ func (t *trTranslator) translateFunc(f *trFunc) {
 	}
 	c := &trCtx{t: t, fn: f, names: map[types.Object]string{}, used: map[string]bool{"fuel": true}}
 	c.writerMove = t.writerMoveOf(f)
+	c.ambientDeclare() // color.NoColor, the float formatter (trans_units_tablerender.go)
 	sig := f.obj.Type().(*types.Signature)
-	if sig.Variadic() {
+	if sig.Variadic() && !trVariadicOK[f.obj.FullName()] {
 		trFail(f.decl.Pos(), "variadic function is outside the subset")
 	}
 	// reserve the names of all identifiers of the function so that generated temporaries cannot collide
@@ -345,7 +362,7 @@ func (t *trTranslator) translateFunc(f *trFunc) {
 			return
 		}
 		n := c.local(v)
-		if n == "_" {
+		if n == "_" || n == "" {
 			n = c.fresh("unused")
 		}
 		params = append(params, "("+n+" : "+lt+")")
@@ -540,6 +557,7 @@ func trRun(repo string) (map[string]string, []string) {
 			t.byUnit[u] = append(t.byUnit[u], f)
 		}
 	}
+	t.addDispatchFuncs() // interface methods of closed sums (trans_units_tablerender.go)
 	// parameters assigned through, then effects, both to a fixpoint over the call graph
 	var all []*trFunc
 	for _, u := range trUnits {
@@ -645,6 +663,7 @@ func trRun(repo string) (map[string]string, []string) {
 			b.WriteString("import Knut.GoSem.Fmt\n") // io.Writer, fmt's padding, strings.Join, Time.Format (trans_units_jprinter.go)
 		}
 		b.WriteString(trPerfImports(body.String() + strings.Join(t.decls[u], "\n")))
+		b.WriteString(trTableImports(body.String() + strings.Join(t.decls[u], "\n")))
 		b.WriteString(trCreateImports(body.String())) // syntax nodes, time.Parse, decimal.NewFromString (trans_units_create.go)
 		for _, imp := range trMappingImports(body.String() + strings.Join(t.decls[u], "\n")) {
 			b.WriteString(imp + "\n") // Regexp.Ptr (trans_units_mapping.go)
